@@ -94,7 +94,20 @@ func (s *Stack) Empty() bool {
 
 // AddIncludeTraceToError adds include trace to given error.
 func (s *Stack) AddIncludeTraceToError(je *jerr.JApiError) {
-	addIncludeTraceToError(je, s.stack)
+	stack := s.stack
+	if je != nil {
+		// A directive is processed when the next keyword is found, and that
+		// keyword can be in an included file already. Then the error is about
+		// one of the including files, and only the files including that one
+		// belong to its trace.
+		for i, item := range s.stack {
+			if item.scanner.file == je.File() {
+				stack = s.stack[:i]
+				break
+			}
+		}
+	}
+	addIncludeTraceToError(je, stack)
 }
 
 // ToDirectiveIncludeTracer converts this scanner stack to directive's include trace.
